@@ -19,6 +19,12 @@ CHECKS = {
         text="SymbolicMaths.equal/never_equal/expand and DependencyTools._get_dependency_distance are run on generated integer expression pairs; every positive verdict is the hypothesis of a z3 query over all integers with Fortran truncating division/MOD/MIN/MAX and arrays as uninterpreted maps. Witnesses are replayed with an independent integer evaluator.",
         note="Expressions are enumerated/sampled up to depth 2 (quick) / 3 (thorough); valuations are solver-quantified (unbounded; nonlinear 'unknown' answers are re-asked on [-8,8]). Only soundness of positive verdicts is asserted.",
         ref="5/C17"),
+    "C27": dict(
+        level="model_checking", engine="pysx",
+        technique="symbolic execution of the real Python function (AST -> z3, merged paths), one SMT query per obligation over all dependency maps of N modules",
+        text="ModuleManager.sort_modules is read from /repo and executed by the pysx interpreter with the dependency map as N*(N+1) Boolean solver variables and ignores() arbitrary; z3 decides for ALL maps over N<=5 (thorough 7) modules plus one unknown name: no exception, the while loop needs at most N iterations (unwinding obligation), the result is a permutation of the keys, and if a rank function exists on the known edges every module follows its dependencies. Counterexamples are replayed on the real function.",
+        note="Bounds: N<=5/7 modules, one unknown name. dict order = insertion order (all orders by relabelling); set iteration order taken as universe order. Translator validated each run against the real function on random maps. Trusted: pysx, z3.",
+        ref="5/C27"),
 }
 
 NA = {
